@@ -712,7 +712,6 @@ bool ReadArrayFromTextStream(Array *array, Stream *stream) {
     if (!DiscardWhitespace(stream)) return false;
     if (!stream->Read(&c)) return false;
     if (c != ',') {
-      if (c != '}') return false;
       if (!stream->Unread(c)) return false;
     }
   }
